@@ -11,7 +11,7 @@ def distFitsU16 (n : Nat) : Bool := n ≤ 65535
 
 /-- `a.distance_to_term(b).map_or(0.0, |n| 1.0 / (usize_to_f32(n) + 1.0))`;
 outer `none` = panic (`usize_to_f32`), inner `none` = division by zero -/
-def distanceSim {F : Type} [Num F] : Option Nat → Option (Option F)
+def distanceSimP {F : Type} [Num F] : Option Nat → Option (Option F)
   | none => some (some (Num.ofNat 0))
   | some n =>
     if distFitsU16 n then some (Num.div? (Num.ofNat 1 : F) (Num.add (Num.ofNat n) (Num.ofNat 1)))
